@@ -35,7 +35,7 @@ func compare(res *lib.Result, outs []string, w *World, sc *Scenario, mode string
 	rules = map[string]int{}
 	nn := len(sc.Nodes)
 	if len(outs) != len(w.Lines) {
-		res.Note("driver: %d answers for %d lines", len(outs), len(w.Lines))
+		res.Fatalf("Lean driver answered %d lines for %d requests", len(outs), len(w.Lines))
 		return rules, false
 	}
 	for i := 0; i < nn; i++ {
@@ -66,7 +66,7 @@ func askCompare(res *lib.Result, drv *lib.Driver, w *World, sc *Scenario, mode s
 	w.Seal()
 	outs, err := drv.AskAll(w.Lines)
 	if err != nil {
-		res.Note("driver: %v", err)
+		res.Fatalf("Lean driver failed: %v", err)
 		return map[string]int{}, false
 	}
 	return compare(res, outs, w, sc, mode)
@@ -128,7 +128,7 @@ func main() {
 
 	drv, err := lib.StartDriver(f.Driver)
 	if err != nil {
-		res.Note("driver: %v", err)
+		res.Fatalf("Lean driver failed: %v", err)
 		lib.Finish(f, res)
 	}
 	runThresholds(f, res, r.Fork(1000003), drv, nil)
@@ -164,7 +164,7 @@ func main() {
 			defer wg.Done()
 			d, err := lib.StartDriver(f.Driver)
 			if err != nil {
-				res.Note("driver: %v", err)
+				res.Fatalf("Lean driver failed: %v", err)
 				for range jobs {
 				}
 				return
@@ -185,7 +185,7 @@ func main() {
 				}
 				outs, err := d.AskAll(lines)
 				if err != nil {
-					res.Note("driver: %v", err)
+					res.Fatalf("Lean driver failed: %v", err)
 					return
 				}
 				off := 0
@@ -195,7 +195,7 @@ func main() {
 					off += len(w.Lines)
 					report(res, w, sc, mode)
 					if mode == "sim" && !w.Admissible {
-						res.Note("harness bug: generated an inadmissible history (%s)", w.Why)
+						res.Fatalf("harness bug: generated an inadmissible history (%s)", w.Why)
 					}
 					nontrivial := 0
 					for _, o := range w.Outs {
@@ -271,22 +271,22 @@ func main() {
 func runReplay(f lib.Flags, res *lib.Result) {
 	b, err := os.ReadFile(f.Replay)
 	if err != nil {
-		res.Note("replay: %v", err)
+		res.Fatalf("replay: %v", err)
 		return
 	}
 	var rf replayFile
 	var body replayBody
 	if err := json.Unmarshal(b, &rf); err != nil || rf.Replay == nil {
-		res.Note("replay: unreadable file: %v", err)
+		res.Fatalf("replay: unreadable file: %v", err)
 		return
 	}
 	if err := json.Unmarshal(rf.Replay, &body); err != nil {
-		res.Note("replay: unreadable body: %v", err)
+		res.Fatalf("replay: unreadable body: %v", err)
 		return
 	}
 	drv, err := lib.StartDriver(f.Driver)
 	if err != nil {
-		res.Note("driver: %v", err)
+		res.Fatalf("Lean driver failed: %v", err)
 		return
 	}
 	defer drv.Close()
@@ -294,13 +294,13 @@ func runReplay(f lib.Flags, res *lib.Result) {
 	case "thresholds":
 		n, err := strconv.ParseUint(body.N, 10, 64)
 		if err != nil {
-			res.Note("replay: bad n")
+			res.Fatalf("replay: bad n")
 			return
 		}
 		runThresholds(f, res, lib.NewRNG(1), drv, []uint64{n})
 	case "sim", "fuzz", "exhaustive":
 		if body.Scenario == nil {
-			res.Note("replay: no scenario")
+			res.Fatalf("replay: no scenario")
 			return
 		}
 		w := Replay(body.Scenario)
@@ -315,6 +315,6 @@ func runReplay(f lib.Flags, res *lib.Result) {
 			res.Note("replayed history is not admissible: %s", w.Why)
 		}
 	default:
-		res.Note("replay: unknown mode %q", body.Mode)
+		res.Fatalf("replay: unknown mode %q", body.Mode)
 	}
 }
